@@ -104,9 +104,11 @@ func specs() []*Spec {
 			Units: []Unit{
 				{Pkg: "", Job: "C08", Quick: allCfg, Thorough: allCfg},
 				{Pkg: "extra/x25519", Job: "C08x", Quick: allCfg, Thorough: allCfg},
+				{Pkg: "internal/modm", Job: "C08m", Quick: allCfg, Thorough: allCfg},
+				{Pkg: "internal/ge25519", Job: "C08g", Quick: allCfg, Thorough: allCfg},
 			},
 			Post:   postC08,
-			Rule:   "E1 x configurations: one deterministic generator (the C01/C05 triple space at deviation level <= 2 evaluated in both modes, small-order keys x the S boundary alphabet, key generation and signing over seeds x SHA-512 boundary lengths x variants/contexts, batches of 15 sizes x 16 entry kinds x option sets; X25519 on the nibble-pattern scalar alphabet and 64 points, both key conversions on 2^11 (thorough 2^14) strings/seeds) is compiled into each of the 7 build configurations {default, noasm, force32bit, appengine, noasm+appengine, force32bit+appengine, GOARCH=386}; every case's outputs (keys, signatures, verdict vectors, X25519 outputs, error/panic classes) are digested and the transcripts compared case by case with the default configuration. The default configuration's outputs are checked against the model by C01-C07, C11, C12.",
+			Rule:   "E1 x configurations: one deterministic generator (the C01/C05 triple space at deviation level <= 2 evaluated in both modes, small-order keys x the S boundary alphabet, key generation and signing over seeds x SHA-512 boundary lengths x variants/contexts, batches of 15 sizes x 16 entry kinds x option sets; X25519 on the nibble-pattern scalar alphabet and 64 points, both key conversions on 2^11 (thorough 2^14) strings/seeds) is compiled into each of the 7 build configurations {default, noasm, force32bit, appengine, noasm+appengine, force32bit+appengine, GOARCH=386}; every case's outputs (keys, signatures, verdict vectors, X25519 outputs, error/panic classes) are digested and the transcripts compared case by case with the default configuration. Because API inputs cannot be steered to the rare carry / borrow paths of the arithmetic layers (they are hash outputs), two layer-level generators are compared across configurations as well, restricted to operations whose inputs the API supplies directly or from SHA-512 outputs and whose inputs and outputs are layout-independent byte strings / digit vectors: scalar reduction of 64- and 32-byte strings (k*L+delta for every quotient size, word classes), Add/Mul on the boundary alphabet, the three recodings on the nibble alphabet; point decoding + re-encoding on a 12-bit (thorough 15-bit) y scan at both ends of the range, fixed-base multiplication on the nibble alphabet, double-base multiplication on 5 points x 300 scalar pairs. The default configuration's outputs are checked against the model by C01-C07, C10-C12, C16, C19.",
 			Assume: []string{"arm64/ppc64le/s390x/mips builds of the same two limb layouts are not executed; the unalignedOk=false path of the unsafe conditional move is not reachable on amd64/386"},
 		},
 		{
